@@ -101,6 +101,7 @@ func Reset() {
 	Abort = false
 	On = false
 	Exploring = false
+	Fine = false
 	Prefix = nil
 	Trace = nil
 	Diverged = ""
@@ -251,6 +252,19 @@ func Point() {
 		OnPoint()
 	}
 	schedule()
+}
+
+// Fine turns the function-entry points inserted by vgen into scheduling points.
+var Fine bool
+
+// FinePoint is a scheduling point at the entry of a function of the rewritten
+// package.  Only server threads take it (the harness main thread calls into the
+// package for dumps), and only while a scenario asks for it.
+func FinePoint() {
+	if !Fine || !On || Abort || !Exploring || cur == nil || cur.ID == 0 {
+		return
+	}
+	Point()
 }
 
 // Progress tells the scheduler that the current thread got something done
